@@ -150,6 +150,8 @@ class Operand(ABC):
             return ExtendedOperand(self.operand_string, self.instruction, value=self.value)
 
         if self.value.is_numeric() and (self.value.is_direct() or old_value.is_explicit_direct()):
+            if self.value.is_negative():
+                raise OperandTypeError("[{}] is not a direct address".format(self.operand_string))
             return DirectOperand(self.operand_string, self.instruction, DirectNumericValue(self.value.int))
 
         if self.value.is_address() and old_value.is_explicit_direct():
